@@ -382,3 +382,86 @@ def o4(prog, tier="quick"):
     if not ok:
         findings.append({"key": "O4:compare<T>", "where": f["l"], "msg": "compare<T> no longer maps a<b to less and b<a to greater: %s" % shape, "detail": None})
     return inst, findings
+
+
+def o5(prog, tier="quick"):
+    """the order on whole stacks (used by the closure's seen-set and by `==` on stacks) is a strict weak order with `==` as its
+    equivalence, given a consistent order on slot values: abstract evaluation of compare_stack / stack::operator< / operator=="""
+    from r_core import _Vec, _It, _TypeObj
+    inst, findings = [], []
+    cs = prog.func_opt("(anonymous namespace)::compare_stack")
+    lt = prog.func_opt("stack::operator<")
+    eq = prog.func_opt("stack::operator==")
+    if cs is None or lt is None or eq is None:
+        raise Broken("anchors compare_stack / stack::operator< / operator== vanished")
+    cmp_enum = None
+    for e in prog.enums.values():
+        if e["q"] == "cmp_result":
+            cmp_enum = {c["n"]: ("enum", c["n"], c["v"]) for c in e["consts"]}
+
+    class V:
+        def __init__(self, t, r):
+            self.t, self.r = t, r
+            self.addr = 9000 + 10 * t + r
+
+        def __repr__(self):
+            return "v%d.%d" % (self.t, self.r)
+
+    class S:
+        def __init__(self, vals):
+            self.m_values = _Vec()
+            self.m_values.items = list(vals)
+
+        def __repr__(self):
+            return repr(self.m_values.items)
+    hooks = {
+        "method:size": lambda ev, o, a: len(o.items),
+        "method:begin": lambda ev, o, a: _It(o, 0),
+        "method:end": lambda ev, o, a: _It(o, len(o.items)),
+        "method:operator*": lambda ev, o, a: o.deref() if isinstance(o, _It) else o,
+        "method:operator->": lambda ev, o, a: o.deref() if isinstance(o, _It) else o,
+        "method:operator++": lambda ev, o, a: (setattr(o, "pos", o.pos + 1) or o),
+        "zw_value::get_type": lambda ev, o, a: _TypeObj(o.t),
+        "zw_value::cmp": lambda ev, o, a: cmp_enum["less"] if o.r < a[0].r else (cmp_enum["greater"] if o.r > a[0].r else cmp_enum["equal"]),
+        "value_type::operator<": lambda ev, o, a: o._code < a[0]._code,
+        "(anonymous namespace)::compare_stack": lambda ev, o, a: ev.call(cs, None, a),
+    }
+    ev = Evaluator(hooks, {}, ptr_lt=True, prog=None)
+    vals = [V(t, r) for t in (1, 2) for r in (0, 1)]
+    stacks = [S(())] + [S((a,)) for a in vals] + [S((a, b)) for a in vals for b in vals]
+    if tier == "thorough":
+        stacks += [S((a, b, c)) for a in vals for b in vals for c in vals[:2]]
+    from r_core import OutOfBounds
+    L, E = {}, {}
+    bad = None
+    for a in stacks:
+        for b in stacks:
+            try:
+                L[(id(a), id(b))] = bool(ev.call(lt, a, [b]))
+                E[(id(a), id(b))] = bool(ev.call(eq, a, [b]))
+            except OutOfBounds as e:
+                L[(id(a), id(b))] = E[(id(a), id(b))] = False
+                bad = bad or "comparing %r with %r reads %s" % (a, b, e)
+    for a in stacks:
+        if L[(id(a), id(a))] or not E[(id(a), id(a))]:
+            bad = "%r: irreflexivity / reflexive equality" % a
+    for a in stacks:
+        for b in stacks:
+            ab, ba = L[(id(a), id(b))], L[(id(b), id(a))]
+            if ab and ba:
+                bad = bad or "%r < %r and %r < %r" % (a, b, b, a)
+            if E[(id(a), id(b))] != (not ab and not ba):
+                bad = bad or "%r == %r is %s but the order says %s" % (a, b, E[(id(a), id(b))], not ab and not ba)
+    for a in stacks:
+        for b in stacks:
+            if not L[(id(a), id(b))]:
+                continue
+            for c in stacks:
+                if L[(id(b), id(c))] and not L[(id(a), id(c))]:
+                    bad = bad or "%r < %r < %r but not %r < %r" % (a, b, c, a, c)
+    inst.append(("O5:stack-order", {"stacks": len(stacks), "pairs": len(L)}))
+    if bad:
+        findings.append({"key": "O5:stack-order", "where": "libzwerg/stack.cc:%s" % cs["l"].split(":")[-1],
+                         "msg": "the order on stacks is not a strict weak order consistent with `==`: %s (the closure's seen-set would yield a stack twice or never terminate)" % bad,
+                         "detail": None})
+    return inst, findings
